@@ -405,7 +405,13 @@ impl<F: PathFetcher> PathSet<F> {
         }
 
         let path_fetch = async {
-            let fetched_paths = self.fetch_and_filter_paths(manager).await?;
+            let mut fetched_paths = self.fetch_and_filter_paths(manager).await?;
+
+            // Paths that are already expired are as good as not found
+            fetched_paths.retain(|path| {
+                check_path_expiry(path, now, self.config.min_expiry_threshold)
+                    != ExpiryState::Expired
+            });
 
             if fetched_paths.is_empty() {
                 // If no paths were found or all were filtered out
